@@ -37,6 +37,26 @@ theorem concatenate_channels (byTol : Bool) (τ : Rat) (hτ : 0 < τ) (chans : L
   Concat.concatenate_channels byTol τ hτ chans hne
     (fun ch hc => ⟨(hch ch hc).1, valid_of_chain_sep (hch ch hc).2.1 (hch ch hc).2.2⟩)
 
+/-- **Repaired empty handling (fixes/C12-2.patch) changes nothing on valid input**: for channels meeting the hypotheses the
+repaired `_concatenate_pulses` (`concatenateZ`) returns exactly what the shipped one returns, every channel present — so
+every theorem below holds for it as well. -/
+theorem repaired_concatenate_agrees (byTol : Bool) (τ : Rat) (hτ : 0 < τ) (chans : List (List (Rat × Wave)))
+    (hne : chans ≠ []) (hch : ∀ ch ∈ chans, ch ≠ [] ∧ Chain 0 ch ∧ Sep byTol τ true 0 ch) :
+    ∃ outs, concatenate byTol τ chans = .ok outs ∧ concatenateZ byTol τ chans = .ok (outs.map some) := by
+  obtain ⟨_, _, _, outs, _, _, h1, h2⟩ := Concat.concatenateZ_channels byTol τ hτ chans hne
+    (fun ch hc => ⟨(hch ch hc).1, valid_of_chain_sep (hch ch hc).2.1 (hch ch hc).2.2⟩)
+  exact ⟨outs, h1, h2⟩
+
+/-- **A gate list without any pulse** (only IDLE gates: no control channel at all).  The shipped `_concatenate_pulses`
+raises (`np.max([])`, model `Err.empty`) — a counter-example to "for every gate list"; the repaired one returns the
+empty result, and a channel that received no instruction is returned as `None` instead of raising. -/
+theorem idle_only_counterexample (byTol : Bool) (τ : Rat) :
+    concatenate byTol τ [] = .error .empty ∧ concatenateZ byTol τ [] = .ok [] ∧
+    concatenate byTol τ [[]] = .error .index ∧ concatenateZ byTol τ [[]] = .ok [none] := by
+  refine ⟨concatenate_nil byTol τ, concatenateZ_nil byTol τ, ?_, ?_⟩
+  · simp [concatenate, mapMExcept, chanLoop]
+  · simp [concatenateZ, mapMExcept, chanLoop, procs, minStep]
+
 /-- **Grid.** Every compiled channel has a time grid that starts at 0 and increases strictly — for every
 padding mode, every final time at or after the channel's end and every positive `min_step_size`. -/
 theorem grid_starts_at_zero_and_increases (byTol : Bool) (τ : Rat) (hτ : 0 < τ) (pm : Mode) (final ms : Rat)
